@@ -74,6 +74,35 @@ def _merge_nodes(inp):
     return "holds", "merged as expected"
 
 
+@replayer("lemma:lemma_rev_comp")
+def _rev_comp(inp):
+    """the strings of the counter-model, then every string over a small alphabet up to length 4, against an independent reverse complement
+    (A<->T, C<->G on upper case; for the other characters only: rev_comp twice is the identity, and it reverses concatenation)"""
+    import itertools
+    from gaftools.utils import rev_comp
+    WC = {"A": "T", "T": "A", "C": "G", "G": "C"}
+    cands = [v for k, v in inp.items() if isinstance(v, str)]
+    alpha = "ACGTNacgt-"
+    for n in range(0, 4):
+        cands += ["".join(t) for t in itertools.product(alpha, repeat=n)]
+    cands += ["ACGT" * 5 + "N", "GATTACA" * 9]
+    for s in cands:
+        r = rev_comp(s)
+        if len(r) != len(s):
+            return "fails", "rev_comp(%r) = %r has another length" % (s, r)
+        for i, c in enumerate(s[::-1]):
+            if c in WC and r[i] != WC[c]:
+                return "fails", "rev_comp(%r) = %r: position %d should be %r, the complement of %r read from the other end" % (s, r, i, WC[c], c)
+        if rev_comp(r) != s:
+            return "fails", "rev_comp(rev_comp(%r)) = %r" % (s, rev_comp(r))
+    small = [c for c in cands if len(c) <= 2] + [v for k, v in inp.items() if isinstance(v, str)]
+    for p in small:
+        for q in small:
+            if rev_comp(p + q) != rev_comp(q) + rev_comp(p):
+                return "fails", "rev_comp(%r + %r) = %r but rev_comp(q) + rev_comp(p) = %r" % (p, q, rev_comp(p + q), rev_comp(q) + rev_comp(p))
+    return "holds", "length, complement on ACGT, involution and reversal of concatenation hold on %d strings" % len(cands)
+
+
 def replay(qual, inputs):
     f = REPLAYERS.get(qual)
     if f is None:
